@@ -20,9 +20,17 @@ contract(
         "supported": "forall(range(len(result)), lambda q: exists(range(K), lambda i: result[q] == maximizers[i] and scores[i] > threshold))",
         # C07: no above-threshold interval is left without a changepoint inside it
         "exhaustive": "forall(range(K), lambda i: implies(scores[i] > threshold, exists(range(len(result)), lambda q: starts[i] <= result[q] and result[q] <= ends[i] - 1)))",
+        # C07: exactly the greedy sequence. With t = the pick time of result[r] (its position before the final sort): result[r] is the maximiser of an
+        # interval a that scores above the threshold and at least as high as every interval not containing an EARLIER pick (strictly higher than
+        # such intervals of smaller index: np.argmax takes the first maximum)
+        "greedy": "forall(range(len(result)), lambda r: 0 <= WIT('src', result, r) and WIT('src', result, r) < K and result[r] == maximizers[WIT('src', result, r)] and scores[WIT('src', result, r)] > threshold and forall(range(K), lambda b: implies(forall(range(len(result)), lambda r2: implies(sort_perm(result, r2) < sort_perm(result, r), not (starts[b] <= result[r2] and result[r2] <= ends[b] - 1))), scores[b] <= scores[WIT('src', result, r)] and implies(b < WIT('src', result, r), scores[b] < scores[WIT('src', result, r)]))))",
     },
     invariants={"loop#1": {
         "len": "len(scores) == K",
+        # the q-th pick is the (first) highest-scoring interval among those still alive at time q (alive: not zeroed yet, or zeroed by pick g_hit >= q);
+        # intervals with original score 0 never compete (the picked score exceeds threshold >= 0)
+        "I6_greedy": "forall(range(len(cpts)), range(K), lambda q, b: implies(old(scores)[b] != 0 and (scores[b] == old(scores)[b] or g_hit[b] >= q), "
+                     "old(scores)[b] <= old(scores)[g_src[q]] and implies(b < g_src[q], old(scores)[b] < old(scores)[g_src[q]])))",
         "I1_zeroed_or_kept": "forall(range(K), lambda i: scores[i] == old(scores)[i] or (scores[i] == 0 and 0 <= g_hit[i] and g_hit[i] < len(cpts) and "
                              "starts[i] <= cpts[g_hit[i]] and cpts[g_hit[i]] <= ends[i] - 1))",
         "I3_containing_are_zero": "forall(range(K), range(len(cpts)), lambda i, q: implies(starts[i] <= cpts[q] and cpts[q] <= ends[i] - 1, scores[i] == 0))",
@@ -38,7 +46,10 @@ contract(
         ("before:scores[*", "g_sc0 = scores"),
         ("after:cpts.sort()",
          "assert forall(range(K), lambda i: implies(scores[i] != old(scores)[i], 0 <= sort_inv(cpts, g_hit[i]) and sort_inv(cpts, g_hit[i]) < len(cpts)"
-         " and starts[i] <= cpts[sort_inv(cpts, g_hit[i])] and cpts[sort_inv(cpts, g_hit[i])] <= ends[i] - 1))"),
+         " and starts[i] <= cpts[sort_inv(cpts, g_hit[i])] and cpts[sort_inv(cpts, g_hit[i])] <= ends[i] - 1 and sort_perm(cpts, sort_inv(cpts, g_hit[i])) == g_hit[i]))\n"
+         "assert forall(range(len(cpts)), lambda r: 0 <= sort_perm(cpts, r) and sort_perm(cpts, r) < len(cpts) and cpts[r] == maximizers[g_src[sort_perm(cpts, r)]] and "
+         "old(scores)[g_src[sort_perm(cpts, r)]] > threshold)\n"
+         "assume(WIT_DEF('src', cpts, lam('int', len(cpts), lambda r: g_src[sort_perm(cpts, r)])))"),
     ],
     props=["C07", "C04"],
 )
@@ -102,6 +113,10 @@ contract(
         "cpts_supported": "forall(range(len(result[0])), lambda q: exists(range(len(result[3])), lambda i: result[0][q] == result[2][i] and result[1][i] > threshold))",
         "cpts_exhaustive": "forall(range(len(result[3])), lambda i: implies(result[1][i] > threshold, exists(range(len(result[0])), "
                            "lambda q: result[3][i] <= result[0][q] and result[0][q] <= result[4][i] - 1)))",
+        # exactly the greedy sequence over the returned scores table (pick order = order before the final sort; WIT: the picked interval)
+        "cpts_greedy": "forall(range(len(result[0])), lambda r: 0 <= WIT('src', result[0], r) and WIT('src', result[0], r) < len(result[3]) and result[0][r] == result[2][WIT('src', result[0], r)] and "
+                       "result[1][WIT('src', result[0], r)] > threshold and forall(range(len(result[3])), lambda b: implies(forall(range(len(result[0])), lambda r2: implies(sort_perm(result[0], r2) < sort_perm(result[0], r), not (result[3][b] <= result[0][r2] and result[0][r2] <= result[4][b] - 1))), "
+                       "result[1][b] <= result[1][WIT('src', result[0], r)] and implies(b < WIT('src', result[0], r), result[1][b] < result[1][WIT('src', result[0], r)]))))",
     },
     invariants={"loop#1": {
         "shapes": "len(amoc_scores) == len(starts) and len(maximizers) == len(starts) and change_score._is_fitted == True and change_score.ghost_n == n",
@@ -130,9 +145,14 @@ contract(
         "supported": "forall(range(len(result)), lambda q: exists(range(K), lambda i: result[q][0] == anomaly_starts[i] and "
                      "result[q][1] == anomaly_ends[i] and scores[i] > threshold))",
         "exhaustive": "forall(range(K), lambda i: implies(scores[i] > threshold, exists(range(len(result)), lambda q: result[q][1] > starts[i] and result[q][0] < ends[i])))",
+        # C09: exactly the greedy sequence (pick time = position before the final sort): each reported anomaly is the inner interval of a candidate that
+        # scores above the threshold and at least as high as every candidate not overlapping an EARLIER pick (first maximum on ties)
+        "greedy": "forall(range(len(result)), lambda r: 0 <= WIT('src', result, r) and WIT('src', result, r) < K and result[r][0] == anomaly_starts[WIT('src', result, r)] and result[r][1] == anomaly_ends[WIT('src', result, r)] and scores[WIT('src', result, r)] > threshold and forall(range(K), lambda b: implies(forall(range(len(result)), lambda r2: implies(sort_perm(result, r2) < sort_perm(result, r), not (result[r2][1] > starts[b] and result[r2][0] < ends[b]))), scores[b] <= scores[WIT('src', result, r)] and implies(b < WIT('src', result, r), scores[b] < scores[WIT('src', result, r)]))))",
     },
     invariants={"loop#1": {
         "len": "len(scores) == K",
+        "I6_greedy": "forall(range(len(anomalies)), range(K), lambda q, b: implies(old(scores)[b] != 0 and (scores[b] == old(scores)[b] or g_hit[b] >= q), "
+                     "old(scores)[b] <= old(scores)[g_src[q]] and implies(b < g_src[q], old(scores)[b] < old(scores)[g_src[q]])))",
         "I1_zeroed_or_kept": "forall(range(K), lambda i: scores[i] == old(scores)[i] or (scores[i] == 0 and 0 <= g_hit[i] and g_hit[i] < len(anomalies) and "
                              "anomalies[g_hit[i]][1] > starts[i] and anomalies[g_hit[i]][0] < ends[i]))",
         "I3_overlapping_are_zero": "forall(range(K), range(len(anomalies)), lambda i, q: implies(anomalies[q][1] > starts[i] and anomalies[q][0] < ends[i], scores[i] == 0))",
@@ -149,7 +169,12 @@ contract(
          "g_src = lam('int', K, lambda q: ite(q == len(anomalies) - 1, argmax, g_src[q]))"),
         ("after:anomalies.sort()",
          "assert forall(range(K), lambda i: implies(scores[i] != old(scores)[i], 0 <= sort_inv(anomalies, g_hit[i]) and sort_inv(anomalies, g_hit[i]) < len(anomalies)"
-         " and anomalies[sort_inv(anomalies, g_hit[i])][1] > starts[i] and anomalies[sort_inv(anomalies, g_hit[i])][0] < ends[i]))"),
+         " and anomalies[sort_inv(anomalies, g_hit[i])][1] > starts[i] and anomalies[sort_inv(anomalies, g_hit[i])][0] < ends[i] and "
+         "sort_perm(anomalies, sort_inv(anomalies, g_hit[i])) == g_hit[i]))\n"
+         "assert forall(range(len(anomalies)), lambda r: 0 <= sort_perm(anomalies, r) and sort_perm(anomalies, r) < len(anomalies) and "
+         "anomalies[r][0] == anomaly_starts[g_src[sort_perm(anomalies, r)]] and anomalies[r][1] == anomaly_ends[g_src[sort_perm(anomalies, r)]] and "
+         "old(scores)[g_src[sort_perm(anomalies, r)]] > threshold)\n"
+         "assume(WIT_DEF('src', anomalies, lam('int', len(anomalies), lambda r: g_src[sort_perm(anomalies, r)])))"),
     ],
     props=["C09", "C04"],
 )
@@ -224,6 +249,11 @@ contract(
                            f"result[1][i] == AGG4({LTOK}, result[3][i], a, b, result[4][i]))))",
         "anomalies_wellformed": f"forall(range(len(result[0])), lambda q: 1 <= result[0][q][0] and result[0][q][0] + {M} <= result[0][q][1] and result[0][q][1] <= n - 1) and "
                                 "forall(range(len(result[0]) - 1), lambda q: result[0][q][1] <= result[0][q + 1][0])",
+        # exactly the greedy sequence over the returned scores table: each anomaly is the listed inner interval of the candidate WIT, which scores above the
+        # threshold and at least as high as every candidate not overlapping an earlier pick
+        "anomalies_greedy": "forall(range(len(result[0])), lambda r: 0 <= WIT('src', result[0], r) and WIT('src', result[0], r) < len(result[3]) and result[0][r][0] == result[2][WIT('src', result[0], r), 0] and "
+                            "result[0][r][1] == result[2][WIT('src', result[0], r), 1] and result[1][WIT('src', result[0], r)] > threshold and forall(range(len(result[3])), lambda b: implies(forall(range(len(result[0])), lambda r2: implies(sort_perm(result[0], r2) < sort_perm(result[0], r), not (result[0][r2][1] > result[3][b] and result[0][r2][0] < result[4][b]))), "
+                            "result[1][b] <= result[1][WIT('src', result[0], r)] and implies(b < WIT('src', result[0], r), result[1][b] < result[1][WIT('src', result[0], r)]))))",
     },
     invariants={"loop#1": {
         "shapes": "len(anomaly_scores) == len(starts) and len(anomaly_starts) == len(starts) and len(anomaly_ends) == len(starts) and "
@@ -239,6 +269,9 @@ contract(
         ("after:maximizers[i, 1] = *", "g_has = lam('bool', len(starts), lambda q: q == i or g_has[q])"),
         ("after:agg_scores = *",
          "assert forall(range(len(anomaly_start_candidates)), lambda q: agg_scores[q] == AGG4(score.ghost_tok, start, anomaly_start_candidates[q], anomaly_end_candidates[q], end))"),
+        ("after:anomalies = greedy_anomaly_selection(*",
+         "assert forall(range(len(starts)), lambda i: implies(anomaly_scores[i] > threshold, maximizers[i, 0] == anomaly_starts[i] and maximizers[i, 1] == anomaly_ends[i]))\n"
+         "assert forall(range(len(anomalies)), lambda r: anomalies[r][0] == maximizers[WIT('src', anomalies, r), 0] and anomalies[r][1] == maximizers[WIT('src', anomalies, r), 1])"),
     ],
     call_ghosts={"anomalies = greedy_anomaly_selection(*":
                  {"greedy_anomaly_selection": {"m": M, "n": "n"}}},
